@@ -372,6 +372,8 @@ fn c04_shard(ctx: &Ctx, out: &mut ShardOut) {
         let helpers = c.sub == "conc-helpers";
         c.run(ctx, &pool, 32 + i as u64, ctx.share(ctx.by_tier(if helpers { 96 } else { 160 }, if helpers { 1_500 } else { 4_000 })) as u32, if helpers { &hb } else { &b }, out);
     }
+    let lb = Budget { single: 0, double: 0, coarse2: 0, tapes: ctx.by_tier(24, 200) as usize, tape_seed: ctx.shard_seed(16), triple: 0, stagger: 0 };
+    super::concchecks::C04L.run(ctx, &pool, 46, ctx.share(ctx.by_tier(128, 4_000)) as u32, &lb, out);
     drop(pool);
     super::concchecks::C04W.run(ctx, &crate::sched::Pool::with_workers(super::concchecks::CROWD_WORKERS), 45, ctx.share(ctx.by_tier(96, 1_500)) as u32, &super::concchecks::crowd_budget(ctx.tier, ctx.shard_seed(10)), out);
 }
@@ -379,6 +381,7 @@ fn c04_shard(ctx: &Ctx, out: &mut ShardOut) {
 fn c04_replay(sub: &str, case: &Value) -> Result<(), CaseFail> {
     match sub {
         "conc-crowd" => super::concchecks::C04W.replay(&crate::sched::Pool::with_workers(super::concchecks::CROWD_WORKERS), case, &super::concchecks::crowd_budget(Tier::Thorough, 1)),
+        "conc-long-mixed" => super::concchecks::C04L.replay(&crate::sched::Pool::new(), case, &Budget { single: 0, double: 0, coarse2: 0, tapes: 200, tape_seed: 1, triple: 0, stagger: 0 }),
         s if s.starts_with("conc") => {
             let c = super::concchecks::C04_ALL.iter().find(|c| c.sub == s).unwrap_or(&&super::concchecks::C04C);
             let b = if s == "conc-helpers" { super::concchecks::helpers_budget(Tier::Thorough, 1) } else { super::concchecks::budget_for(Tier::Thorough, 1) };
@@ -394,7 +397,7 @@ const C06_OR: Oracles = Oracles { returns: false, quiescent: true, ledger: false
 
 /// collision-heavy configurations and adversarial insertion / removal orders
 fn c06_case_strategy() -> impl Strategy<Value = SeqCase> {
-    let hm = prop_oneof![3 => Just(HMode::Const0), 2 => Just(HMode::ConstMax), 3 => Just(HMode::SameBin), 2 => Just(HMode::High), 2 => Just(HMode::Mod4), 1 => Just(HMode::Identity), 2 => Just(HMode::PairBin), 2 => Just(HMode::FewHigh)];
+    let hm = prop_oneof![3 => Just(HMode::Const0), 2 => Just(HMode::ConstMax), 3 => Just(HMode::SameBin), 2 => Just(HMode::High), 2 => Just(HMode::Mod4), 1 => Just(HMode::Identity), 2 => Just(HMode::PairBin), 2 => Just(HMode::FewHigh), 2 => Just(HMode::Shift4)];
     let cap = prop_oneof![3 => Just(43u32), 2 => Just(0u32), 1 => Just(16u32), 2 => Just(100u32), 1 => Just(300u32)];
     let uni = prop_oneof![2 => Just(24u16), 3 => Just(64u16), 3 => Just(128u16), 2 => Just(200u16)];
     (hm, cap, uni, facade_strategy(), batch_strategy()).prop_flat_map(|(hmode, capacity, universe, facade, batch)| {
